@@ -59,8 +59,8 @@ func canonWrite(b *bytes.Buffer, v reflect.Value, depth int) {
 		fmt.Fprintf(b, "buf:%x", x.Bytes())
 		return
 	case *util.Buffer:
-		if x == nil {
-			b.WriteString("buf:")
+		if x == nil || x.Len() == 0 {
+			b.WriteString("nil") // an empty opaque payload is no payload
 		} else {
 			fmt.Fprintf(b, "buf:%x", x.Bytes())
 		}
@@ -78,6 +78,10 @@ func canonWrite(b *bytes.Buffer, v reflect.Value, depth int) {
 			return
 		}
 		if v.Kind() == reflect.Interface {
+			if ub, ok := safeIface(v).(*util.Buffer); ok && (ub == nil || ub.Len() == 0) {
+				b.WriteString("nil") // an empty opaque payload is no payload
+				return
+			}
 			fmt.Fprintf(b, "(%s)", v.Elem().Type().String())
 		}
 		canonWrite(b, v.Elem(), depth+1)
@@ -88,6 +92,19 @@ func canonWrite(b *bytes.Buffer, v reflect.Value, depth int) {
 			name := t.Field(i).Name
 			ln := strings.ToLower(name)
 			if strings.HasPrefix(ln, "pad") || ln == "zero" || ln == "zeros" || ln == "reserved" || ln == "delimiter" {
+				continue
+			}
+			// not on the wire / refreshed only on a copy while encoding
+			if (t.Name() == "NXActionResubmit" && name == "TableID") || (t.Name() == "Bucket" && name == "Length") {
+				continue
+			}
+			// a note's zero padding is part of the note on the wire
+			if t.Name() == "NXActionNote" && name == "Note" {
+				f := v.Field(i)
+				if f.CanAddr() && !f.CanInterface() {
+					f = reflect.NewAt(f.Type(), unsafe.Pointer(f.UnsafeAddr())).Elem()
+				}
+				fmt.Fprintf(b, "Note=%x;", bytes.TrimRight(f.Bytes(), "\x00"))
 				continue
 			}
 			b.WriteString(name + "=")
@@ -130,3 +147,5 @@ func safeIface(v reflect.Value) (r interface{}) {
 	}
 	return nil
 }
+
+func hexDecode(s string) ([]byte, error) { return hex.DecodeString(s) }
